@@ -162,35 +162,7 @@ func genC15(g *Rng, tier string, emit func(Op)) {
 		}
 		emit(Op{"op": "inthash-concurrent", "class": "inthash-concurrent", "label": "ok", "inputs": inputs, "rounds": rounds})
 	}
-	// the attribute hash as the verifier applies it: a disclosed attribute is hashed exactly when it
-	// is longer than the message length of the key's parameter set - also in the set whose message
-	// length (512) differs from its hash length (256). A value the issuer signed as it is, is accepted
-	// as it is; a credential over the digest of x does not disclose x where x fits the message length.
-	for _, kp := range []*KeyPair{fixedKey("k1024a", false), key4096("k4096", 3)} {
-		emit(declKey(kp))
-		lm := int(kp.pk.Params.Lm)
-		for _, bits := range []int{200, 255, 256, 257, 300, 400, 511, 512, 513, 600, 1100} {
-			x := g.exactBits(bits)
-			cred := issueCred(kp, randSecret(g), []*big.Int{x, g.bits(60)})
-			ctx, nonce := g.bits(256), g.bits(80)
-			p, err := cred.CreateDisclosureProof([]int{1}, nil, false, ctx, nonce)
-			if err != nil {
-				panic(err)
-			}
-			emit(verifyDOp(kp.id, proofDTree(p), ctx, nonce, false, fmt.Sprintf("attribute-hash-in-verification-lm%d", lm), "accept").with("fkey", "C15/attribute-hash-threshold"))
-			if bits > 256 && bits <= lm {
-				h := gabi.VerifIntHashSha256(x.Bytes())
-				credH := issueCred(kp, randSecret(g), []*big.Int{h, g.bits(60)})
-				ph, err := credH.CreateDisclosureProof([]int{1}, nil, false, ctx, nonce)
-				if err != nil {
-					panic(err)
-				}
-				t := proofDTree(ph)
-				t["a_disclosed"].(T)["1"] = I(x)
-				emit(verifyDOp(kp.id, t, ctx, nonce, false, "preimage-for-signed-digest", "reject").with("fkey", "C15/attribute-hash-threshold"))
-			}
-		}
-	}
+	attributeHashThresholdOps(g, "C15/attribute-hash-threshold", emit)
 	// the attribute hash is over the magnitude: a negative number longer than the message length
 	// never stands for its absolute value, at whatever position of the block (first included)
 	{
@@ -230,6 +202,10 @@ func genC15(g *Rng, tier string, emit func(Op)) {
 			}
 		}
 	}
+	// the challenge of an honest proof is the hash of the proof's own contributions - also for a
+	// non-revocation commitment that was prepared in advance and refreshed after the accumulator
+	// moved on (what the prover hashed is what the verifier reconstructs)
+	emit(inflightRefreshOp(g, fixedKey("k1024a", true), 3))
 	// the integers in order: a proof with range statements on several hidden attributes contributes
 	// their commitments in ascending attribute order, on the prover's and on the verifier's side, every time
 	{
@@ -376,4 +352,41 @@ func genC15(g *Rng, tier string, emit func(Op)) {
 		emit(Op{"ref": true, "op": "challenge", "class": "random", "context": hx(g.bits(256)), "nonce": hx(g.bits(128)), "contribs": hxs(l), "issig": g.coin()})
 	}
 	_ = gobig.NewInt
+}
+
+// attributeHashThresholdOps: the attribute hash as issuer, prover and verifier apply it: a value is
+// hashed exactly when it is longer than the message length of the key's parameter set - also in the
+// set whose message length (512) differs from its hash length (256). A value the issuer signed as
+// it is, is accepted as it is; a credential over the digest of x does not disclose x where x fits
+// the message length (and the other way round).
+func attributeHashThresholdOps(g *Rng, fkey string, emit func(Op)) {
+	// the attribute hash as the verifier applies it: a disclosed attribute is hashed exactly when it
+	// is longer than the message length of the key's parameter set - also in the set whose message
+	// length (512) differs from its hash length (256). A value the issuer signed as it is, is accepted
+	// as it is; a credential over the digest of x does not disclose x where x fits the message length.
+	for _, kp := range []*KeyPair{fixedKey("k1024a", false), key4096("k4096", 3)} {
+		emit(declKey(kp))
+		lm := int(kp.pk.Params.Lm)
+		for _, bits := range []int{200, 255, 256, 257, 300, 400, 511, 512, 513, 600, 1100} {
+			x := g.exactBits(bits)
+			cred := issueCred(kp, randSecret(g), []*big.Int{x, g.bits(60)})
+			ctx, nonce := g.bits(256), g.bits(80)
+			p, err := cred.CreateDisclosureProof([]int{1}, nil, false, ctx, nonce)
+			if err != nil {
+				panic(err)
+			}
+			emit(verifyDOp(kp.id, proofDTree(p), ctx, nonce, false, fmt.Sprintf("attribute-hash-in-verification-lm%d", lm), "accept").with("fkey", fkey))
+			if bits > 256 && bits <= lm {
+				h := gabi.VerifIntHashSha256(x.Bytes())
+				credH := issueCred(kp, randSecret(g), []*big.Int{h, g.bits(60)})
+				ph, err := credH.CreateDisclosureProof([]int{1}, nil, false, ctx, nonce)
+				if err != nil {
+					panic(err)
+				}
+				t := proofDTree(ph)
+				t["a_disclosed"].(T)["1"] = I(x)
+				emit(verifyDOp(kp.id, t, ctx, nonce, false, "preimage-for-signed-digest", "reject").with("fkey", fkey))
+			}
+		}
+	}
 }
